@@ -210,6 +210,40 @@ func init() {
 				})
 			case "repr":
 				edit(func(v interface{}) interface{} { return v })
+			case "surr": // an unpaired surrogate escape at the end of a string value / a member name
+				path := c2strList(st[1])
+				onName := c2jsonStr(st[2]) == "name"
+				edit(func(v interface{}) interface{} {
+					if onName {
+						if parent, ok := c2get(v, path[:len(path)-1]); ok {
+							if o, ok := parent.(*c2obj); ok {
+								if i := o.find(path[len(path)-1]); i >= 0 {
+									o.keys[i] += string(c2surr)
+								}
+							}
+						}
+						return v
+					}
+					if x, ok := c2get(v, path); ok {
+						if str, ok := x.(string); ok {
+							return c2set(v, path, str+string(c2surr))
+						}
+					}
+					return v
+				})
+			case "dup": // a second member of an existing name, directly before / after the first one
+				k := c2jsonStr(st[1])
+				x, err := c2parse(st[2])
+				if err != nil {
+					panic("c02: bad dup value")
+				}
+				before := c2jsonStr(st[3]) == "before"
+				edit(func(v interface{}) interface{} {
+					if o, ok := v.(*c2obj); ok {
+						c2insertDup(o, k, x, before)
+					}
+					return v
+				})
 			default:
 				panic("c02: unknown step")
 			}
@@ -226,6 +260,18 @@ func init() {
 		return args, B(strings.Join(out, ","))
 	})
 	RegisterProp("C02", genC02)
+}
+
+func c2insertDup(o *c2obj, k string, x interface{}, before bool) {
+	i := o.find(k)
+	if i < 0 {
+		return
+	}
+	if !before {
+		i++
+	}
+	o.keys = append(o.keys[:i], append([]string{k}, o.keys[i:]...)...)
+	o.vals = append(o.vals[:i], append([]interface{}{x}, o.vals[i:]...)...)
 }
 
 // canonical form of a signed text without signatures/unsigned, computed with the harness's own
@@ -342,7 +388,21 @@ func stepSet(path []string, v interface{}) []interface{} {
 func stepDel(path []string) []interface{}           { return []interface{}{"del", c2strs(path...)} }
 func stepCopy(a, b []string) []interface{}          { return []interface{}{"copy", c2strs(a...), c2strs(b...)} }
 func stepSigop(s c2signer, op string) []interface{} { return []interface{}{"sigop", s.name, s.kid, op} }
-func stepRepr() []interface{}                       { return []interface{}{"repr"} }
+func stepSurr(path []string, onName bool) []interface{} {
+	w := "value"
+	if onName {
+		w = "name"
+	}
+	return []interface{}{"surr", c2strs(path...), w}
+}
+func stepDup(k string, x interface{}, before bool) []interface{} {
+	w := "after"
+	if before {
+		w = "before"
+	}
+	return []interface{}{"dup", k, c2clone(x), w}
+}
+func stepRepr() []interface{} { return []interface{}{"repr"} }
 
 var c2escKeys = []string{`q"uote`, `back\\slash`, "tab\tkey", "nl\nkey", "\x01ctl", `"`, `\\`, "\x1f"}
 
@@ -515,6 +575,58 @@ func (g *c2gen) breakingEdit(class int, obj *c2obj) (steps [][]interface{}, name
 				}
 			}
 		}
+	case 13: // the same number spelled differently: not a re-serialisation, the signed bytes change
+		var cands [][]string
+		for _, p := range all {
+			if v, _ := c2get(obj, p); v != nil {
+				if _, ok := v.(c2num); ok {
+					cands = append(cands, p)
+				}
+			}
+		}
+		if p := pickP(cands); p != nil {
+			v, _ := c2get(obj, p)
+			n := string(v.(c2num))
+			switch {
+			case strings.Contains(n, "e"):
+				n = strings.Replace(n, "e", "E", 1)
+			case strings.Contains(n, "E"):
+				n = strings.Replace(n, "E", "e", 1)
+			case strings.Contains(n, "."):
+				n += "0"
+			case g.r.Intn(3) == 0 && strings.HasSuffix(n, "00") && len(n) > 2:
+				n = n[:len(n)-2] + "e2"
+			case g.r.Intn(2) == 0:
+				n += ".0"
+			default:
+				n += "e0"
+			}
+			return [][]interface{}{stepSet(p, c2num(n))}, "number-respelled"
+		}
+	case 14: // F68: unpaired surrogate escape appended to a signed string value
+		var cands [][]string
+		for _, p := range all {
+			if v, _ := c2get(obj, p); v != nil {
+				if _, ok := v.(string); ok {
+					cands = append(cands, p)
+				}
+			}
+		}
+		if p := pickP(cands); p != nil {
+			return [][]interface{}{stepSurr(p, false)}, "unpaired-surrogate-in-value"
+		}
+	case 15: // F68: ... to a member name below the top level (the only member of its object)
+		var cands [][]string
+		for _, p := range nested {
+			if parent, _ := c2get(obj, p[:len(p)-1]); parent != nil {
+				if o, ok := parent.(*c2obj); ok && len(o.keys) == 1 {
+					cands = append(cands, p)
+				}
+			}
+		}
+		if p := pickP(cands); p != nil {
+			return [][]interface{}{stepSurr(p, true)}, "unpaired-surrogate-in-name"
+		}
 	case 9: // move unsigned content into the signed part, or a signed member into unsigned
 		if p := pickP(top); p != nil {
 			v, _ := c2get(obj, p)
@@ -524,7 +636,7 @@ func (g *c2gen) breakingEdit(class int, obj *c2obj) (steps [][]interface{}, name
 	return nil, ""
 }
 
-const c2breakingClasses = 13
+const c2breakingClasses = 16
 
 // edits that must not affect any signature
 func (g *c2gen) benignEdit(class int, signers []c2signer) ([][]interface{}, string) {
@@ -598,6 +710,47 @@ func (g *c2gen) sigEdit(class int, signers []c2signer) ([][]interface{}, string)
 }
 
 const c2sigClasses = 13
+
+// injectSurrogates plants unpaired-surrogate sentinels in string values (any position) and in the
+// names of members that are alone in their (nested) object; never in top-level names nor inside
+// signatures (those are read by encoding/json, which sees U+FFFD there). Returns how many.
+func (g *c2gen) injectSurrogates(v interface{}, top bool) int {
+	n := 0
+	switch x := v.(type) {
+	case []interface{}:
+		for i := range x {
+			if s, ok := x[i].(string); ok && g.r.Intn(3) == 0 {
+				x[i] = g.withSurr(s)
+				n++
+			} else {
+				n += g.injectSurrogates(x[i], false)
+			}
+		}
+	case *c2obj:
+		for i := range x.keys {
+			if top && x.keys[i] == "signatures" {
+				continue
+			}
+			if s, ok := x.vals[i].(string); ok && g.r.Intn(3) == 0 {
+				x.vals[i] = g.withSurr(s)
+				n++
+			} else {
+				n += g.injectSurrogates(x.vals[i], false)
+			}
+			if !top && len(x.keys) == 1 && g.r.Intn(3) == 0 {
+				x.keys[i] = g.withSurr(x.keys[i])
+				n++
+			}
+		}
+	}
+	return n
+}
+
+func (g *c2gen) withSurr(s string) string {
+	rs := []rune(s)
+	i := g.r.Intn(len(rs) + 1)
+	return string(rs[:i]) + string(c2surr) + string(rs[i:])
+}
 
 func (g *c2gen) signers(n int) []c2signer {
 	var l []c2signer
@@ -818,6 +971,86 @@ func genC02(c *Ctx) {
 	for _, t := range []string{`[]`, `5`, `"x"`, `true`, `null`, ` null `, `[{"a":1}]`, ``, ` `, `{`, `{"a":1`, `{"a":1}}`, `{"a":1} x`, `{"a"}`, `{"a":}`, `{a:1}`,
 		`{"a":1,}`, `{"signatures":{"a":{"k":"AA"}}`, `{"signatures":{"a":{"k":"AA"}},"unsigned":}`, `nul`, `{"a":tru}`, `{"a":01}`, `{"a":"` + "\x01" + `"}`, `{"a":1}{"b":2}`} {
 		signDirect("example.org", "ed25519:1", B(t), "sign/non-object-or-invalid")
+	}
+
+	// ---- 4b. F68: unpaired surrogate escapes anywhere in signed string values, in unsigned, and in
+	// member names below the top level (single-member objects) - SignJSON drops them -----------
+	n = c.Scale(60, 600)
+	for i := 0; i < n; i++ {
+		o := g.object(2, 1, 4, c2topKeys)
+		if c.Rng.Intn(3) == 0 {
+			o.set("unsigned", g.object(1, 1, 3, c2nestedKeys))
+		}
+		if g.injectSurrogates(o, true) == 0 {
+			o.set("body", "x"+string(c2surr)+"y")
+		}
+		if c.Rng.Intn(3) == 0 {
+			o.set("signatures", g.sigMap(true, c2names, c2kids))
+		}
+		signDirect(g.pick(c2names), g.pick(c2kids), present(o), "sign/unpaired-surrogate")
+	}
+	// ---- 4c. F70: texts that are not UTF-8 (member names and values): SignJSON must refuse -----
+	bad := []string{"\xff", "\xc0\xaf", "\xed\xa0\x80", "\xe2\x82", "\xf4\x90\x80\x80", "\x80", "\xe9"}
+	n = c.Scale(40, 400)
+	for i := 0; i < n; i++ {
+		o := g.object(2, 1, 4, c2topKeys)
+		switch c.Rng.Intn(4) {
+		case 0:
+			o.set("k"+string(c2raw), c2num("1"))
+		case 1:
+			o.set("content", c2obj1("body", "caf"+string(c2raw)))
+		case 2:
+			o.set("content", c2obj1("na"+string(c2raw)+"me", true))
+		default:
+			o.set("signatures", c2obj1("ent"+string(c2raw), c2obj1("ed25519:1", "AAAA")))
+		}
+		text := bytes.Replace(present(o), []byte(string(c2raw)), []byte(bad[c.Rng.Intn(len(bad))]), -1)
+		signDirect("example.org", "ed25519:1", text, "sign/not-utf8")
+	}
+
+	// ---- 4d. F69: a member name repeated at the top level ------------------------------------
+	n = c.Scale(60, 600)
+	for i := 0; i < n; i++ {
+		start := g.object(2, 1, 4, c2topKeys)
+		signers := g.signers(1 + c.Rng.Intn(2))
+		k := start.keys[c.Rng.Intn(len(start.keys))]
+		var x interface{} = c2fresh()
+		if c.Rng.Intn(4) == 0 {
+			x, _ = c2get(start, []string{k}) // the very same value once more
+		}
+		before := c.Rng.Intn(2) == 0
+		var steps [][]interface{}
+		desc := "repeated-member/"
+		if c.Rng.Intn(3) == 0 { // the signer is handed an object that already has the name twice
+			c2insertDup(start, k, x, before)
+			desc += "signed-with-it"
+		} else {
+			for _, s := range signers {
+				steps = append(steps, stepSign(s))
+			}
+			steps = append(steps, stepDup(k, x, before))
+			signers = nil
+			if before {
+				desc += "inserted-before"
+			} else {
+				desc += "inserted-after"
+			}
+		}
+		later := g.signers(1 + c.Rng.Intn(2))
+		if len(signers) > 0 {
+			later = signers
+		}
+		for _, s := range later {
+			steps = append(steps, stepSign(s))
+		}
+		var all []c2signer
+		for _, st := range steps {
+			if st[0] == "sign" {
+				all = append(all, c2signer{st[1].(string), st[2].(string), st[3].(string)})
+			}
+		}
+		scenario(start, steps, g.queries(all), desc)
+		c.Count(desc)
 	}
 
 	// ---- 5. VerifyJSON directly on texts that carry no genuine signature (error branches) ----
